@@ -324,6 +324,11 @@ def index_lambda_to_high_level_op(expr: IndexLambda) -> HighLevelOp:
     if isinstance(inner_expr, SCALAR_CLASSES):
         return FullOp(inner_expr)
 
+    if isinstance(inner_expr, p.NaN):
+        # full(shape, nan)
+        return FullOp(inner_expr.data_type(float("nan"))
+                      if inner_expr.data_type else np.nan)
+
     # {{{ binary ops
 
     try:
